@@ -30,7 +30,8 @@ MUTATIONS = [
     ('compiled-key-without-table-group', 'pybufrkit/templatecompiler.py',
      [("""        key_of_compiled_template = (
             tuple(template.original_descriptor_ids),
-            table_group.key
+            table_group.key,
+            TableGroupCacheManager.extra_entries_generation()
         )
 """, """        key_of_compiled_template = tuple(template.original_descriptor_ids)
 """)]),
@@ -118,6 +119,7 @@ def main():
             new = new.replace(old, rep)
         if not ok:
             results.append((name, 'NOT-APPLICABLE (source text not found exactly once)', ''))
+            print('%-48s %s\n    %s' % results[-1])
             continue
         try:
             open(full, 'w').write(new)
